@@ -1,0 +1,33 @@
+//go:build verif
+
+package service
+
+// Verification hooks, compiled only with the build tag "verif" (see /verif/DESIGN.md section 9).
+
+// VerifYield, when set, is called at the guarded yield points that precede every lock acquisition of the replay
+// cache, so that a cooperative scheduler can enumerate interleavings deterministically. nil means run freely.
+var VerifYield func(label string)
+
+func verifYield(label string) {
+	if f := VerifYield; f != nil {
+		f(label)
+	}
+}
+
+// NewVerifCache returns a private replay cache (the map of the singleton cannot be initialised from outside).
+func NewVerifCache() *Cache {
+	return &Cache{entries: make(map[string]clientEntries)}
+}
+
+// VerifDump returns the (client, client time in unix nanoseconds, service) triples the cache remembers.
+func (c *Cache) VerifDump() [][3]string {
+	c.mux.RLock()
+	defer c.mux.RUnlock()
+	var r [][3]string
+	for ck, ce := range c.entries {
+		for k := range ce.replayMap {
+			r = append(r, [3]string{ck, k.cTime.UTC().Format("2006-01-02T15:04:05.000000Z"), k.sName})
+		}
+	}
+	return r
+}
